@@ -24,6 +24,7 @@ import (
 	"sort"
 	"strings"
 	"sync"
+	"sync/atomic"
 	"time"
 
 	v1 "github.com/fatedier/frp/pkg/config/v1"
@@ -367,10 +368,12 @@ func (s *goStub) Handle(_ context.Context, op string, content any) (*plugin.Resp
 // ---- level 2: HTTP stubs ----------------------------------------------------------------
 
 type httpStub struct {
-	onlyOp    string        // when set, the script applies to this op only; other ops are accepted unchanged and not recorded
-	notes     []string      // proxy names of the CloseProxy notifications received while onlyOp is set
-	noteDelay time.Duration // every CloseProxy notification is answered only after this long (alive but slow)
-	noteFail  uint64        // bit i set: the i-th notification is answered with a failure (500 / reset / garbage, by i mod 3)
+	onlyOp    string              // when set, the script applies to this op only; other ops are accepted unchanged and not recorded
+	notes     []string            // proxy names of the CloseProxy notifications received while onlyOp is set
+	token     string              // path token of the case this stub currently serves: /handler/<token>
+	foreign   map[string][]string // requests that carry ANOTHER case's token (late asynchronous notifications): op:proxy per token
+	noteDelay time.Duration       // every CloseProxy notification is answered only after this long (alive but slow)
+	noteFail  uint64              // bit i set: the i-th notification is answered with a failure (500 / reset / garbage, by i mod 3)
 	id        int
 	ln        net.Listener
 	srv       *http.Server
@@ -401,6 +404,15 @@ func (st *httpStub) set(sc *script) {
 	st.mu.Unlock()
 }
 
+// arm: the stub now serves the case with this path token
+func (st *httpStub) arm(token string) {
+	st.mu.Lock()
+	st.token = token
+	st.mu.Unlock()
+}
+
+var foreignRequests atomic.Int64
+
 func (st *httpStub) ServeHTTP(w http.ResponseWriter, r *http.Request) {
 	st.mu.Lock()
 	sc := st.sc
@@ -417,14 +429,31 @@ func (st *httpStub) ServeHTTP(w http.ResponseWriter, r *http.Request) {
 		st.rec.mu.Unlock()
 	}
 	if r.Method != "POST" || r.URL.Query().Get("op") != req.Op || r.URL.Query().Get("version") != req.Version ||
-		req.Version != plugin.APIVersion || r.Header.Get("X-Frp-Reqid") == "" || r.URL.Path != "/handler" {
+		req.Version != plugin.APIVersion || r.Header.Get("X-Frp-Reqid") == "" || !strings.HasPrefix(r.URL.Path, "/handler/") {
 		st.rec.mu.Lock()
 		st.rec.bad = append(st.rec.bad, fmt.Sprintf("malformed plugin request: %s %s op=%q version=%q", r.Method, r.URL.String(), req.Op, req.Version))
 		st.rec.mu.Unlock()
 	}
+	// every case configures its plugins with its own path token: a request that carries another token
+	// belongs to an earlier case (CloseProxy notifications are sent from goroutines that outlive the
+	// session and the frps that started them) -- it is booked to that case and never to the current one
+	tok := strings.TrimPrefix(r.URL.Path, "/handler/")
 	st.mu.Lock()
+	cur := st.token
+	if tok != cur {
+		if st.foreign == nil {
+			st.foreign = map[string][]string{}
+		}
+		st.foreign[tok] = append(st.foreign[tok], req.Op)
+	}
 	only := st.onlyOp
 	st.mu.Unlock()
+	if tok != cur {
+		foreignRequests.Add(1)
+		w.Header().Set("Content-Type", "application/json")
+		_, _ = io.WriteString(w, `{"reject":false,"unchange":true}`)
+		return
+	}
 	if only != "" && req.Op != only {
 		if req.Op == "CloseProxy" {
 			var cp struct {
@@ -679,6 +708,7 @@ func runPlugins(cfg *runCfg) error {
 				m.Register(&goStub{id: ids[i], ops: opsets[i], sc: scripts[i], rec: rec})
 			} else {
 				stubs[i].set(scripts[i])
+				stubs[i].arm(fmt.Sprintf("m%d", n))
 				addr := "http://" + stubs[i].addr
 				if scripts[i].trFail == "refused" {
 					// an address of ours with no listener: the plugin cannot be reached at all
@@ -687,7 +717,7 @@ func runPlugins(cfg *runCfg) error {
 				} else if g.chance(0.3) {
 					addr = stubs[i].addr // NewHTTPPluginOptions adds the scheme
 				}
-				m.Register(plugin.NewHTTPPluginOptions(v1.HTTPPluginOptions{Name: fmt.Sprintf("p%d", ids[i]), Addr: addr, Path: "/handler", Ops: opsets[i]}))
+				m.Register(plugin.NewHTTPPluginOptions(v1.HTTPPluginOptions{Name: fmt.Sprintf("p%d", ids[i]), Addr: addr, Path: fmt.Sprintf("/handler/m%d", n), Ops: opsets[i]}))
 			}
 		}
 		c0 := g.content(op)
@@ -698,6 +728,7 @@ func runPlugins(cfg *runCfg) error {
 		if level == 2 {
 			for _, st := range stubs {
 				st.set(nil)
+				st.arm("")
 			}
 		}
 		txt := fmt.Sprintf("CMgr %d %d %s %s %s %s %s %d %s %s", level, opi, coqPlugins(ids, opsets), coqList(scCoq), coqList(blind),
